@@ -28,6 +28,12 @@ func simDisable() (picks, multi, yields, sites, hash, diverge, spins uint64)
 //go:linkname simSetPCT runtime.simSetPCT
 func simSetPCT(depth, steps uint32)
 
+//go:linkname simSetSiteDelay runtime.simSetSiteDelay
+func simSetSiteDelay(K, k uint32, lifo bool)
+
+//go:linkname simDeferrals runtime.simDeferrals
+func simDeferrals() uint64
+
 //go:linkname simSetPlayback runtime.simSetPlayback
 func simSetPlayback(p *uint8, n int)
 
@@ -51,10 +57,20 @@ type Sched struct {
 	Decisions string `json:"decisions,omitempty"`
 	// PCTDepth > 0 selects PCT-style priority scheduling (random priorities,
 	// highest runs, PCTDepth priority-change points uniform in [1,PCTSteps]
-	// scheduling points) instead of uniform random picks. Decisions are not
-	// recorded in this mode; replay is by seed.
+	// scheduling points) instead of uniform random picks.
 	PCTDepth uint32 `json:"pct_depth,omitempty"`
 	PCTSteps uint32 `json:"pct_steps,omitempty"`
+	// SDMod > 0 selects site delays: a goroutine reaching a scheduling point
+	// whose call-stack hash % SDMod == SDRes is set aside until every other
+	// goroutine is blocked or set aside too (one code location is "slow" for
+	// the whole run: the race window starting there is held open for every
+	// goroutine that passes). SDLifo: of several set aside, the last resumes
+	// first. Works on top of uniform picks or PCT. The hash is over return
+	// addresses, i.e. it belongs to one build; the recorded Decisions do not
+	// depend on it.
+	SDMod  uint32 `json:"sd_mod,omitempty"`
+	SDRes  uint32 `json:"sd_res,omitempty"`
+	SDLifo bool   `json:"sd_lifo,omitempty"`
 }
 
 // Violation is one oracle failure.
@@ -76,8 +92,12 @@ type Stats struct {
 	// SpinSleeps: virtual-time sleeps the runtime injected because a goroutine
 	// busy-looped at one virtual instant (see rt/mkpatch.py).
 	SpinSleeps uint64 `json:"spin_sleeps,omitempty"`
-	NDec       int    `json:"ndec"`
-	Overflow   bool   `json:"overflow,omitempty"`
+	// Deferrals: goroutines set aside by site delays.
+	Deferrals uint64 `json:"deferrals,omitempty"`
+	// Mode: scheduling mode of the run: uniform | pct | sd | pct+sd | playback.
+	Mode     string `json:"mode,omitempty"`
+	NDec     int    `json:"ndec"`
+	Overflow bool   `json:"overflow,omitempty"`
 }
 
 // Env is handed to the body of a run.
@@ -234,8 +254,10 @@ func Run(t *testing.T, sc Sched, wantLog, wantDec bool, body func(e *Env)) Outco
 		simSetSiteTrace(siteTraceFile != "")
 		if sc.Decisions == "" {
 			simSetPCT(sc.PCTDepth, sc.PCTSteps)
+			simSetSiteDelay(sc.SDMod, sc.SDRes, sc.SDLifo)
 		} else {
 			simSetPCT(0, 0)
+			simSetSiteDelay(0, 0, false)
 		}
 		simEnable(sc.SchedSeed, sc.AuxSeed, sc.YieldThr)
 		synctest.Test(t, func(t *testing.T) {
@@ -245,7 +267,19 @@ func Run(t *testing.T, sc Sched, wantLog, wantDec bool, body func(e *Env)) Outco
 		})
 	}()
 	p, m, y, s, h, d, sp := simDisable()
-	out.Stats = Stats{Picks: p, Multi: m, Yields: y, Sites: s, SchedHash: h, Diverge: d, SpinSleeps: sp}
+	out.Stats = Stats{Picks: p, Multi: m, Yields: y, Sites: s, SchedHash: h, Diverge: d, SpinSleeps: sp, Deferrals: simDeferrals()}
+	switch {
+	case sc.Decisions != "":
+		out.Stats.Mode = "playback"
+	case sc.PCTDepth > 0 && sc.SDMod > 0:
+		out.Stats.Mode = "pct+sd"
+	case sc.PCTDepth > 0:
+		out.Stats.Mode = "pct"
+	case sc.SDMod > 0:
+		out.Stats.Mode = "sd"
+	default:
+		out.Stats.Mode = "uniform"
+	}
 	n, over := simGetDecisions(nil, 0)
 	out.Stats.NDec, out.Stats.Overflow = n, over
 	if wantDec && n > 0 && !over {
